@@ -923,6 +923,34 @@ func (r *c14Run) tripleCase(i, j, k int, lt, eq [][]string) int {
 	return id
 }
 
+// [v1..vn].order(x->x) for 4..10 operands
+func (r *c14Run) orderCase(idx []int, lt [][]string) {
+	vals := make([]value.Value, len(idx))
+	for n, i := range idx {
+		vals[n] = r.pool[i].Build()
+	}
+	o := c14ObsVal(evalExpr("l.order(x->x)", []string{"l"}, value.NewList(vals...)))
+	id := r.nextID()
+	r.sum.Evaluations++
+	human := r.record(id, "order", "order/n="+fmt.Sprint(len(idx))+"/spec", idx, "l.order(x->x) -> "+o)
+	ix := make([]string, len(idx))
+	for n, i := range idx {
+		ix[n] = fmt.Sprint(i)
+	}
+	r.cw.Add(fmt.Sprintf("COrder %d %s %s", id, CoqList(ix), strings.TrimSuffix(strings.TrimPrefix(r.compact([]string{o}, idx), "["), "]")))
+	r.sum.Count("order_len", fmt.Sprint(len(idx)))
+	r.sum.Count("order_outcome", map[bool]string{true: "error", false: "sorted list"}[o == c14OE])
+	if o != c14OE {
+		r.sum.Nontriv("order:" + fmt.Sprint(idx))
+	}
+	r.orderLaw(id, human, o, idx, func(p, q int) string {
+		if idx[p] == idx[q] {
+			return lt[idx[p]][idx[p]]
+		}
+		return lt[idx[p]][idx[q]]
+	})
+}
+
 func (r *c14Run) setPool(pool []*c14CV) {
 	r.pool = pool
 	r.term = make([]string, len(pool))
@@ -998,6 +1026,12 @@ func cmdC14(seed int64, tier, outDir string) {
 			run.mem2Case(0, 1, 2, eq)
 		case "triple":
 			run.tripleCase(0, 1, 2, lt, eq)
+		case "order":
+			idx := make([]int, n)
+			for i := range idx {
+				idx[i] = i
+			}
+			run.orderCase(idx, lt)
 		default:
 			fatal("replay case: unknown type %q", rp.Type)
 		}
@@ -1082,6 +1116,34 @@ func cmdC14(seed int64, tier, outDir string) {
 		if t%3 == 0 {
 			run.mem2Case(i, j, k, eq)
 		}
+	}
+	// longer lists for order: mostly mutually comparable scalars (all numbers or all strings)
+	var nums, strs []int
+	for i, v := range pool {
+		switch v.Kind {
+		case "int", "float":
+			nums = append(nums, i)
+		case "str":
+			strs = append(strs, i)
+		}
+	}
+	nOrder := 300 * optBoost
+	if tier == "thorough" {
+		nOrder = 5000 * optBoost
+	}
+	for t := 0; t < nOrder; t++ {
+		src := nums
+		if rg.Chance(0.3) {
+			src = strs
+		}
+		idx := make([]int, 4+rg.Pick(7))
+		for k := range idx {
+			idx[k] = src[rg.Pick(len(src))]
+			if rg.Chance(0.02) {
+				idx[k] = rg.Pick(n) // an incomparable element now and then
+			}
+		}
+		run.orderCase(idx, lt)
 	}
 	// transitivity of < and = over ALL triples of the pool, on the pair answers already observed
 	checked, chains := 0, 0
